@@ -87,7 +87,15 @@ func batchRun(c Case) ([]string, []string) {
 				}
 			}
 			lines = append(lines, strings.Join(w, " "))
+			mt0, ct0 := b.ModifyTime(), b.CreateTime()
 			ok, err := b.Add(m)
+			mtS, ctS := "same", "same"
+			if b.ModifyTime() != mt0 {
+				mtS = "changed"
+			}
+			if b.CreateTime() != ct0 {
+				ctS = "changed"
+			}
 			if w[2] != "DATA" {
 				if ok && err == nil {
 					outs = append(outs, "ok-noop")
@@ -100,7 +108,7 @@ func batchRun(c Case) ([]string, []string) {
 			if ok != (err == nil) {
 				res = "inconsistent-return"
 			}
-			outs = append(outs, fmt.Sprintf("%s full=%v empty=%v n=%d bytes=%d ids=%s txns=%s", res, b.IsFull(), b.IsEmpty(), b.NumMessages(), b.GetPayloadByteSize(), payloadIds(b), showTxns(b.GetTransactions())))
+			outs = append(outs, fmt.Sprintf("%s full=%v empty=%v n=%d bytes=%d ids=%s txns=%s mtime=%s ctime=%s", res, b.IsFull(), b.IsEmpty(), b.NumMessages(), b.GetPayloadByteSize(), payloadIds(b), showTxns(b.GetTransactions()), mtS, ctS))
 		default:
 			lines = append(lines, l)
 			outs = append(outs, "bad-op")
@@ -159,8 +167,24 @@ func batchGen(r *Rng, tier string) Case {
 	return Case{lines}
 }
 
+// batchMonitor (C16): the idle-age rule reads the batch's modify time; it must move exactly when a
+// record was appended, and the create time never
+func batchMonitor(lines, outs []string, m *Model) []Violation {
+	for i, o := range outs {
+		f := strings.Fields(o)
+		if len(f) < 9 || i >= len(lines) {
+			continue
+		}
+		appended := f[0] == "ok"
+		if (strings.HasSuffix(o, "ctime=changed")) || (appended && strings.Contains(o, "mtime=same")) || (!appended && strings.Contains(o, "mtime=changed")) {
+			return []Violation{{"C16", "batch modify/create time bookkeeping is wrong (modify time must change exactly when a record is appended): " + lines[i] + " => " + f[0] + " " + f[len(f)-2] + " " + f[len(f)-1], ""}}
+		}
+	}
+	return nil
+}
+
 func init() {
-	register(&Component{Name: "batch", Gen: batchGen, Run: batchRun, Quick: 400, Thorough: 15000,
+	register(&Component{Name: "batch", Gen: batchGen, Run: batchRun, Monitor: batchMonitor, Quick: 400, Thorough: 15000,
 		Nontrivial: func(lines, outs []string) bool {
 			for _, o := range outs {
 				if strings.HasPrefix(o, "full") || strings.HasPrefix(o, "cantfit") || strings.HasPrefix(o, "toobig") || strings.HasPrefix(o, "invalid") {
